@@ -296,4 +296,4 @@ example : FormattableSchema C13_sampleDoc := by decide
     `type T { """⏎a⏎b⏎""" f: Int }` answers `tree-differs:DF-FL`; `09` and `2020` answer `ok`.) -/
 theorem C13_description_newline_indent_counterexample :
     blockStringValue (descBody [10] [97, 10, 98]) = [97, 10, 10, 98] ∧
-    blockStringValue (descBody [44] [101]) = [44, 101] := by decide
+    blockStringValue (descBody [44] [101]) = [44, 101, 10, 44] := by decide
